@@ -19,7 +19,12 @@ import (
 	"verif/simcore"
 )
 
-const maxOffered = 14
+// at most this many inputs are offered per run (budgets are made distinct
+// modulo 32, see offer)
+const (
+	maxOfferedQuick    = 14
+	maxOfferedThorough = 28
+)
 
 // Run executes one simulated run of the C18 engine. t is the test binary's
 // *testing.T (needed by testing/synctest).
@@ -43,6 +48,11 @@ func Run(t *testing.T, r *simcore.Run) {
 		StartHeight:  []int32{800_000, 700_000, 900_123}[tp.CfgDraw(3)],
 	}
 	cfg.StartAboveMax = tp.CfgDraw(16) == 15
+	cfg.MaxOffered = maxOfferedQuick
+	if r.Tier == "thorough" {
+		cfg.Steps *= 2
+		cfg.MaxOffered = maxOfferedThorough
+	}
 	cfg.InitialUtxos = tp.CfgDraw(4)
 	r.Arm = "sweeper/fault-free"
 	if cfg.Faulty {
@@ -156,7 +166,7 @@ func (s *sim) pollResults() {
 				in.final = "error: " + res.Err.Error()
 				s.r.Count("input_failed")
 			}
-			s.r.Logf("  %s final: %s", in.label(), in.final)
+			dlog(s.r, "  %s final: %s", in.label(), in.final)
 		default:
 		}
 	}
@@ -169,12 +179,20 @@ func (s *sim) liveRequests() []*simReq {
 			out = append(out, q)
 		}
 	}
+	// w.reqs is in registration order, which depends on lnd's map iteration;
+	// choices must be made from a canonical order.
+	sort.Slice(out, func(i, j int) bool {
+		if out[i].minIdx != out[j].minIdx {
+			return out[i].minIdx < out[j].minIdx
+		}
+		return out[i].gen < out[j].gen
+	})
 	return out
 }
 
 func (s *sim) run() {
 	r, w, cfg := s.r, s.w, s.cfg
-	r.Logf("config %+v", cfg)
+	dlog(r, "config %+v", cfg)
 	must := func(err error, what string) {
 		if err != nil {
 			r.Harness("%s: %v", what, err)
@@ -189,7 +207,7 @@ func (s *sim) run() {
 		u := &simUtxo{idx: i, op: simOutPoint("utxo", i), value: val}
 		w.utxos = append(w.utxos, u)
 		w.utxoByOp[u.op] = u
-		r.Logf("wallet utxo u%d value=%d", i, val)
+		dlog(r, "wallet utxo u%d value=%d", i, val)
 	}
 
 	for w.step < cfg.Steps && r.Step() {
@@ -199,7 +217,7 @@ func (s *sim) run() {
 			weight int
 		}
 		var en []choice
-		if len(w.inputs) < maxOffered {
+		if len(w.inputs) < cfg.MaxOffered {
 			en = append(en, choice{"offer", 5})
 		}
 		en = append(en, choice{"block", 7}, choice{"skip", 2})
@@ -244,6 +262,7 @@ func (s *sim) run() {
 			len(w.mempool), len(w.utxos)))
 	}
 	s.windDown()
+	w.raiseDeferred()
 
 	st := r.Stats
 	r.Nontrivial = st["ceiling_checks"] > 0 && st["fee_bumps"] > 0
@@ -266,7 +285,7 @@ func (s *sim) windDown() {
 	w.mu.Lock()
 	w.fault = 0
 	w.mu.Unlock()
-	s.r.Logf("wind-down at height %d", w.height)
+	dlog(s.r, "wind-down at height %d", w.height)
 	for iter := 0; iter < 80; iter++ {
 		target := int32(-1)
 		for _, q := range s.liveRequests() {
@@ -299,7 +318,7 @@ func (s *sim) addUtxo() {
 	w.utxos = append(w.utxos, u)
 	w.utxoByOp[u.op] = u
 	w.mu.Unlock()
-	r.Logf("wallet utxo u%d value=%d", idx, val)
+	dlog(r, "wallet utxo u%d value=%d", idx, val)
 }
 
 func (s *sim) offer() {
@@ -341,7 +360,7 @@ func (s *sim) offer() {
 	}
 	// Distinct budgets per run: the aggregator's budget sort is not stable, so
 	// equal budgets would let lnd's map iteration order pick the clusters.
-	budget = budget/16*16 + int64(idx%16)
+	budget = budget/32*32 + int64(idx%32)
 
 	in := &simInput{idx: idx, kind: kind, op: simOutPoint("in", idx), value: value, budget: budget}
 	params := sweep.Params{Budget: btcutil.Amount(budget)}
@@ -408,7 +427,7 @@ func (s *sim) offer() {
 	if in.hasDeadline {
 		dl = fmt.Sprint(in.deadline)
 	}
-	r.Logf("offer %s kind=%v value=%d budget=%d deadline=%s start=%d immediate=%v hint=%d csv=%d cltv=%d h=%d",
+	dlog(r, "offer %s kind=%v value=%d budget=%d deadline=%s start=%d immediate=%v hint=%d csv=%d cltv=%d h=%d",
 		in.label(), kind, value, budget, dl, in.start, in.immediate, hint, csv, cltv, h)
 	ch, err := s.sweeper.SweepInput(inp, params)
 	if err != nil {
@@ -438,9 +457,13 @@ func (s *sim) block(delta int32, draws bool) {
 	if delta > 1 {
 		r.Count("blocks_skipping_heights")
 	}
-	r.Logf("block height=%d (+%d) fault-level=%d", w.height, delta, w.fault)
+	dlog(r, "block height=%d (+%d) fault-level=%d", w.height, delta, w.fault)
 	if draws {
+		// The spend notifications of the block's transactions are delivered
+		// (to quiescence) before the beat: lnd selects between its spend and
+		// beat channels at random, the simulator fixes the order.
 		s.chainEvent()
+		synctest.Wait()
 	}
 	b := s.beat()
 	if err := s.sweeper.ProcessBlock(b); err != nil {
@@ -482,6 +505,7 @@ func (s *sim) chainEvent() {
 		for _, ti := range p.tx.TxIn {
 			if _, gone := w.spent[ti.PreviousOutPoint]; gone {
 				w.mu.Unlock()
+				dlog(r, "  chain: %s version %d cannot confirm any more (input spent)", q.key, v+1)
 				return
 			}
 		}
@@ -492,7 +516,7 @@ func (s *sim) chainEvent() {
 		} else {
 			r.Count("fault_confirm_earlier_version")
 		}
-		r.Logf("  chain: %s version %d/%d (fee %d) confirms", q.key, v+1, len(q.published), p.fee)
+		dlog(r, "  chain: %s version %d/%d (fee %d) confirms", q.key, v+1, len(q.published), p.fee)
 	case k == 7 && s.cfg.Faulty:
 		var cands []*simInput
 		for _, in := range w.inputs {
@@ -512,7 +536,7 @@ func (s *sim) chainEvent() {
 		w.markSpentLocked(tx)
 		w.mu.Unlock()
 		r.Count("fault_third_party_spend")
-		r.Logf("  chain: third party spends %s", in.label())
+		dlog(r, "  chain: third party spends %s", in.label())
 	}
 }
 
@@ -521,12 +545,6 @@ func (s *sim) chainEvent() {
 func (s *sim) towardDeadline() {
 	r, w := s.r, s.w
 	live := s.liveRequests()
-	sort.Slice(live, func(i, j int) bool {
-		if live[i].minIdx != live[j].minIdx {
-			return live[i].minIdx < live[j].minIdx
-		}
-		return live[i].gen < live[j].gen
-	})
 	q := live[r.Draw(len(live))]
 	back := int32(1 + r.Draw(3))
 	d := q.deadline - back - w.height
